@@ -153,7 +153,7 @@ def mk_discr(t):
 
 
 def place_root(pl):
-    while pl[0] in ("field", "index", "down", "cidx", "subslice", "range"):
+    while pl[0] in ("field", "index", "down", "cidx", "subslice", "range", "slicefrom"):
         pl = pl[1]
     return pl
 
@@ -164,7 +164,7 @@ def place_is_local(pl):
 
 def place_chain(pl):
     ch = []
-    while pl[0] in ("field", "index", "down", "cidx", "subslice", "range"):
+    while pl[0] in ("field", "index", "down", "cidx", "subslice", "range", "slicefrom"):
         ch.append(pl)
         pl = pl[1]
     ch.append(pl)
@@ -177,7 +177,7 @@ def is_prefix(p, q):
     while True:
         if p == q:
             return True
-        if q[0] in ("field", "index", "down", "cidx", "subslice", "range"):
+        if q[0] in ("field", "index", "down", "cidx", "subslice", "range", "slicefrom"):
             q = q[1]
         else:
             return False
@@ -726,12 +726,19 @@ class Interp:
                 if e[2] is not None:
                     FNAMES[cur] = e[2]
             elif k == "index":
-                cur = ("index", cur, self.read_local(st, e[1]))
+                ix = self.read_local(st, e[1])
+                if cur[0] == "slicefrom":
+                    cur = ("index", cur[1], mk_bin("Add", cur[2], ix))
+                else:
+                    cur = ("index", cur, ix)
             elif k == "downcast":
                 cur = ("down", cur, e[1])
             elif k == "cidx":
                 if not e[3]:
-                    cur = ("index", cur, mk_int(e[1]))
+                    if cur[0] == "slicefrom":
+                        cur = ("index", cur[1], mk_bin("Add", cur[2], mk_int(e[1])))
+                    else:
+                        cur = ("index", cur, mk_int(e[1]))
                 else:
                     cur = ("cidx", cur, e[1], e[2], e[3])
             elif k == "subslice":
@@ -989,6 +996,8 @@ class Interp:
         """references to locals are replaced by references to their current value (for term identity)"""
         if isinstance(a, tuple) and a and a[0] == "ref" and place_is_local(a[1]):
             return ("ref", ("constval", self.read_pl(st, a[1])))
+        if isinstance(a, tuple) and a and a[0] == "agg":
+            return ("agg", a[1], tuple(self._ref_values(st, x) for x in a[2]))
         return a
 
     def reduce_mem(self, mem, places):
@@ -1261,8 +1270,25 @@ def ax_index(I, st, fn, args, bb):
         return NotImplemented
     ity = (fn.get("args") or ["", ""])[-1]
     if ity in ("usize",) or is_int(idx) or I.tys.get(idx) == "usize":
+        if pl[0] == "slicefrom":
+            return ("ref", ("index", pl[1], mk_bin("Add", pl[2], idx)))
         return ("ref", ("index", pl, idx))
     return ("ref", ("range", pl, idx))
+
+
+def mk_slicefrom(pl, off):
+    if pl[0] == "slicefrom":
+        return mk_slicefrom(pl[1], mk_bin("Add", pl[2], off))
+    if off == mk_int(0):
+        return pl
+    return ("slicefrom", pl, off)
+
+
+def ax_split_at(I, st, fn, args, bb):
+    pl = _ref_place(args[0])
+    if pl is None:
+        return NotImplemented
+    return ("agg", "tuple", (("ref", mk_slicefrom(pl, mk_int(0))), ("ref", mk_slicefrom(pl, args[1]))))
 
 
 def ax_deref(I, st, fn, args, bb):
@@ -1428,6 +1454,8 @@ AXIOMS = {
     ("std::iter::Iterator", "rev"): ax_rev,
     ("std::iter::Iterator", "next"): ax_next,
     "std::ops::RangeInclusive::<Idx>::new": ax_range_incl_new,
+    "core::slice::<impl [T]>::split_at_mut": ax_split_at,
+    "core::slice::<impl [T]>::split_at": ax_split_at,
     "std::mem::swap": ax_swap,
     "core::mem::swap": ax_swap,
     "std::mem::replace": ax_replace,
